@@ -20,7 +20,7 @@
 (* A command is a record [op, fn, t, kind, dir, files, kws, opts]:          *)
 (*   op    src_add src_rm extra_files_add extra_files_rm target_add         *)
 (*         target_rm info kw_set kw_delete kw_add kw_remove do_set do_delete *)
-(*   fn    "target" | "project" (for kw_*)      t   addressed target / id   *)
+(*   fn    "target" | "project" (kw_ ops)       t   addressed target / id   *)
 (*   files set of file names      kws  sequence of [k, ty, v] (keyword,     *)
 (*         "val" literal value | "ids" value is an array of variable names  *)
 (*         to be resolved through vars | "id" one variable name)            *)
